@@ -17,7 +17,11 @@ type CaseC10 struct {
 
 func genC10(t *rapid.T) *CaseC10 {
 	c := &CaseC10{}
-	for i := rapid.IntRange(0, 8).Draw(t, "nhv"); i > 0; i-- {
+	nhv := rapid.IntRange(0, 8).Draw(t, "nhv")
+	if rapid.IntRange(0, 49).Draw(t, "long") == 0 {
+		nhv = rapid.SampledFrom([]int{33, 64, 65, 130, 300}).Draw(t, "nLong")
+	}
+	for i := nhv; i > 0; i-- {
 		z := genZoom(t, "z", 0, 35)
 		c.HV = append(c.HV, genBoxAt(t, "hv", z, z))
 	}
